@@ -2,6 +2,7 @@ SPECIFICATION GSpec
 CONSTANTS MaxOps = 3
           MaxClock = 3
           Small = FALSE
+          Tiny = FALSE
           Depth = 40
 CONSTRAINT Emit
 CHECK_DEADLOCK FALSE
